@@ -4,11 +4,10 @@
 //! ontologies (three layouts x three kinds) and the crate's enrichment functions are compared.
 use crate::scenario::*;
 use crate::util::*;
-use hpo::annotations::{AnnotationId, GeneId, OmimDiseaseId, OrphaDiseaseId};
-use hpo::builder::Builder;
+use hpo::annotations::AnnotationId;
 use hpo::stats::hypergeom::{gene_enrichment, omim_disease_enrichment, orpha_disease_enrichment};
 use hpo::term::HpoGroup;
-use hpo::{HpoSet, HpoTermId, Ontology};
+use hpo::{HpoSet, Ontology};
 use serde_json::{json, Value};
 use std::collections::BTreeMap;
 
@@ -63,60 +62,65 @@ struct Layout {
 /// layout 0: the ontology is exactly N flat terms, background = the whole ontology
 /// layout 1: root + N leaves + extra terms; background = the N leaves (a proper sub-collection)
 /// layout 2: the N background terms are inner nodes, each annotation sits on a child leaf (inherited)
+/// layout 3: as layout 1 plus HP:118, loaded from a BINARY file in which every third background term is flagged
+///           obsolete and every fifth names a replacement: a term is a term, whatever its metadata says
 fn build(layout: u32, n_pop: u64, n_sample: u64, profiles: &[Profile], kind: Kind) -> Result<(Layout, Vec<u32>, BTreeMap<u32, Profile>), String> {
+    use crate::scenario::{Fact, Scenario, TermSpec};
     let r = catch(|| -> Result<(Layout, Vec<u32>, BTreeMap<u32, Profile>), String> {
-        let mut b = Builder::new();
+        let mut scn = Scenario::default();
+        scn.version = (2024, 2, 3);
+        let flagged = layout == 3;
         let bg: Vec<u32> = (0..n_pop as u32).map(|i| 1000 + 3 * i).collect();
         let leaf = |t: u32| t + 1; // child leaf of background term t (layout 2)
-        for t in &bg {
-            b.new_term(&format!("B{t}"), *t);
+        for (i, t) in bg.iter().enumerate() {
+            scn.terms.push(TermSpec { id: *t, name: format!("B{t}"), obsolete: flagged && i % 3 == 0, repl: if flagged && i % 5 == 0 { Some(1) } else { None } });
             if layout == 2 {
-                b.new_term(&format!("L{t}"), leaf(*t));
+                scn.terms.push(TermSpec { id: leaf(*t), name: format!("L{t}"), obsolete: false, repl: None });
             }
         }
         if layout >= 1 {
-            b.new_term("root", 1u32);
+            scn.terms.push(TermSpec { id: 1, name: "root".into(), obsolete: false, repl: None });
             for e in 0..5u32 {
-                b.new_term(&format!("extra{e}"), 10 + e);
+                scn.terms.push(TermSpec { id: 10 + e, name: format!("extra{e}"), obsolete: flagged && e == 2, repl: None });
             }
-        }
-        let mut b = b.terms_complete();
-        if layout >= 1 {
             for t in &bg {
-                b.add_parent(1u32, *t).map_err(|e| e.to_string())?;
+                scn.edges.push((1, *t));
             }
             for e in 0..5u32 {
-                b.add_parent(1u32, 10 + e).map_err(|e| e.to_string())?;
+                scn.edges.push((1, 10 + e));
             }
+        }
+        if flagged {
+            scn.terms.push(TermSpec { id: 118, name: "pheno".into(), obsolete: false, repl: None });
+            scn.edges.push((1, 118));
         }
         if layout == 2 {
             for t in &bg {
-                b.add_parent(*t, leaf(*t)).map_err(|e| e.to_string())?;
+                scn.edges.push((*t, leaf(*t)));
             }
         }
-        let mut b = b.connect_all_terms();
         let sample: Vec<u32> = bg[..n_sample as usize].to_vec();
         let rest: Vec<u32> = bg[n_sample as usize..].to_vec();
         let mut expected = BTreeMap::new();
-        let mut annotate = |b: &mut Builder<hpo::builder::ConnectedTerms>, kind: Kind, x: u32, t: u32| -> Result<(), String> {
-            let t = HpoTermId::from(if layout == 2 { leaf(t) } else { t });
-            match kind {
-                Kind::Gene => b.annotate_gene(GeneId::from(x), &format!("g{x}"), t),
-                Kind::Omim => b.annotate_omim_disease(OmimDiseaseId::from(x), &format!("o{x}"), t),
-                Kind::Orpha => b.annotate_orpha_disease(OrphaDiseaseId::from(x), &format!("r{x}"), t),
-            }
-            .map_err(|e| e.to_string())
+        let name_of = |kind: Kind, x: u32| match kind {
+            Kind::Gene => format!("g{x}"),
+            Kind::Omim => format!("o{x}"),
+            Kind::Orpha => format!("r{x}"),
+        };
+        let annotate = |scn: &mut Scenario, kind: Kind, x: u32, t: u32, plain: bool| {
+            let t = if layout == 2 && !plain { leaf(t) } else { t };
+            scn.facts.push(Fact { kind, x, name: name_of(kind, x), term: Some(t) });
         };
         for (i, p) in profiles.iter().enumerate() {
             let x = 500 + i as u32;
             // k of the sample terms, K-k of the others; rotate the start so that overlaps vary
             for j in 0..p.k {
                 let t = sample[((i as u64 * 7 + j) % n_sample) as usize];
-                annotate(&mut b, kind, x, t)?;
+                annotate(&mut scn, kind, x, t, false);
             }
             for j in 0..(p.big_k - p.k) {
                 let t = rest[((i as u64 * 5 + j) % rest.len() as u64) as usize];
-                annotate(&mut b, kind, x, t)?;
+                annotate(&mut scn, kind, x, t, false);
             }
             if p.k > 0 {
                 expected.insert(x, p.clone());
@@ -125,32 +129,27 @@ fn build(layout: u32, n_pop: u64, n_sample: u64, profiles: &[Profile], kind: Kin
             // a kind mix-up changes counts
             for other in KINDS {
                 if other != kind {
-                    annotate(&mut b, other, x, bg[(i % bg.len()) as usize])?;
-                    annotate(&mut b, other, x, bg[((i + 1) % bg.len()) as usize])?;
+                    annotate(&mut scn, other, x, bg[(i % bg.len()) as usize], false);
+                    annotate(&mut scn, other, x, bg[((i + 1) % bg.len()) as usize], false);
                 }
             }
             // in layouts with extra terms, annotate one of them too: terms outside the background must not count
             if layout >= 1 {
-                annotate_plain(&mut b, kind, x, 10 + (i as u32 % 5))?;
+                annotate(&mut scn, kind, x, 10 + (i as u32 % 5), true);
             }
         }
-        let ont = b.calculate_information_content().map_err(|e| e.to_string())?.build_minimal();
+        let ont = if flagged {
+            let bytes = crate::enc::encode(&crate::enc::abstract_of_ordered(&scn, false), 3);
+            crate::paths::from_bytes(&bytes)?
+        } else {
+            crate::paths::via_builder(&scn, crate::paths::EdgeOrder::AsGiven, false, false)?
+        };
         Ok((Layout { ont, background: bg, whole: layout == 0 }, sample, expected))
     });
     match r {
         Ok(x) => x,
         Err(p) => Err(format!("panic while building: {p}")),
     }
-}
-
-fn annotate_plain(b: &mut Builder<hpo::builder::ConnectedTerms>, kind: Kind, x: u32, t: u32) -> Result<(), String> {
-    let t = HpoTermId::from(t);
-    match kind {
-        Kind::Gene => b.annotate_gene(GeneId::from(x), &format!("g{x}"), t),
-        Kind::Omim => b.annotate_omim_disease(OmimDiseaseId::from(x), &format!("o{x}"), t),
-        Kind::Orpha => b.annotate_orpha_disease(OrphaDiseaseId::from(x), &format!("r{x}"), t),
-    }
-    .map_err(|e| e.to_string())
 }
 
 fn set_of<'a>(ont: &'a Ontology, ids: &[u32]) -> HpoSet<'a> {
@@ -301,7 +300,7 @@ pub fn run(args: &Args) {
         } else {
             st.bump("profiles_within_factorial_table", profiles.len() as u64);
         }
-        let layouts: Vec<u32> = if *n_pop <= 60 { vec![0, 1, 2] } else { vec![0, 2] };
+        let layouts: Vec<u32> = if *n_pop <= 60 { vec![0, 1, 2, 3] } else { vec![0, 2] };
         let mut diffs = check_group(&mut st, *n_pop, *n_sample, &profiles, &layouts);
         // sparse variants: only one or two annotations in the whole ontology, so that most
         // background and sample terms carry NO annotation of the tested kind (they still count
